@@ -6,9 +6,11 @@ import CharsetProof.Lemmas.SortPerm
 import CharsetProof.Props.C04
 import CharsetProof.Props.C04b
 import CharsetProof.Props.C04c
+import CharsetProof.Props.C10e
 open Charset
 #print axioms C04_chaos_range
 #print axioms C04_chaos_range_md
+#print axioms C04_chaos_range_full
 #print axioms C04_mess_ratio_nonneg
 #print axioms worldMd_mess_ok
 #print axioms C04_md_flags_covered
